@@ -277,6 +277,15 @@ func (u *Universe) prelude(heaps []string, db *DB, usedSpec map[string]bool) str
 	for _, s := range lits {
 		n := u.strLits[s]
 		fmt.Fprintf(&b, "(declare-const %s Str)\n(assert (= (str_len %s) %d))\n", n, n, len(s))
+		if len(s) <= 16 {
+			// a byte window equals the literal iff it has its length and its bytes
+			conj := []string{fmt.Sprintf("(= n %d)", len(s))}
+			for i := 0; i < len(s); i++ {
+				conj = append(conj, fmt.Sprintf("(= (select a (+ off %d)) %d)", i, s[i]))
+				fmt.Fprintf(&b, "(assert (= (select (str_bytes %s) %d) %d))\n", n, i, s[i])
+			}
+			fmt.Fprintf(&b, "(assert (forall ((a (Array Int Int)) (off Int) (n Int)) (! (= (= (str_of a off n) %s) (and %s)) :pattern ((str_of a off n)))))\n", n, strings.Join(conj, " "))
+		}
 	}
 	if len(lits) > 0 {
 		names := []string{"str_empty"}
